@@ -1,7 +1,7 @@
 """Precision-narrowing scan (effect rule over the unoptimised IR).
 
 A function template instantiated for double only may not round an intermediate to float: no
-`fptrunc double -> float`, no call of a single-precision libm routine (`acosf`, `sqrtf`, ...), and no
+`fptrunc double -> float`, no conversion of a 32/64-bit integer to float, no call of a single-precision libm routine (`acosf`, `sqrtf`, ...), and no
 `float`-returning callee whose result is widened back.  Instantiations that mention float in their own
 signature (converting constructors, mixed-type operators) are conversions by contract and are not looked at.
 The scan reads the -O0 IR of a wrapper translation unit generated for T = double, so the functions it sees
@@ -14,6 +14,7 @@ LIBM_F = ('acosf', 'asinf', 'atanf', 'atan2f', 'sinf', 'cosf', 'tanf', 'sqrtf', 
 
 _def = re.compile(r'^define\b.*?@("?)([\w.$]+)\1\(.*?(!dbg !(\d+))?\s*\{\s*$')
 _trunc = re.compile(r'=\s*fptrunc double [^,]* to float\b.*?(?:!dbg !(\d+))?\s*$')
+_itof = re.compile(r'=\s*[su]itofp i(?:32|64) [^,]* to float\b.*?(?:!dbg !(\d+))?\s*$')
 _callf = re.compile(r'=\s*(?:tail |notail |musttail )?call\b[^@]*\bfloat @("?)([\w.$]+)\1\(.*?(?:!dbg !(\d+))?\s*$')
 _md = re.compile(r'^!(\d+) = (?:distinct )?!(\w+)\((.*)\)\s*$')
 
@@ -50,6 +51,9 @@ def scan_ll(path):
             m = _trunc.search(line)
             if m:
                 sites.append(dict(fn=cur, kind='fptrunc', what='fptrunc double to float', md=m.group(1))); continue
+            m = _itof.search(line)
+            if m:
+                sites.append(dict(fn=cur, kind='fptrunc', what='conversion of a 32/64-bit integer to float (24 significant bits)', md=m.group(1))); continue
             m = _callf.search(line)
             if m:
                 sites.append(dict(fn=cur, kind='call', what=m.group(2), md=m.group(3)))
